@@ -112,7 +112,7 @@ pub fn oracle(case: &Case) -> Verdict {
     Verdict::Pass(info)
 }
 
-fn strategy() -> impl Strategy<Value = Case> {
+pub fn strategy() -> impl Strategy<Value = Case> {
     let cfg = GenCfg { depth: 5, size: 40, heavy: false, eq_num_keys: true, ..GenCfg::std() };
     let small = GenCfg { depth: 2, size: 6, heavy: false, ..GenCfg::std() };
     prop_oneof![
